@@ -16,7 +16,7 @@ from .c03 import _norm, _same
 from .c01 import OPS
 
 STEPS = ["open_close"] + [o for o in OPS if o not in ("reopen", "move_data", "foreign_membership", "create_deferred")] + \
-        ["retype_data", "add_boolean_of_existing_type", "add_data_of_existing_type"]
+        ["retype_data", "add_boolean_of_existing_type", "add_data_of_existing_type", "copy_data_renamed", "copy_object_renamed"]
 
 
 def digest(h5file, store, prefixes):
@@ -102,21 +102,32 @@ class FrameStep(Scenario):
         s2 = p.add_data({"S2": {"values": real_np.arange(2.0) + 7, "entity_type": d1.entity_type}})
         b1 = p.add_data({"B1": {"values": real_np.array([True, False]), "type": "boolean"}})
         b1.entity_type.value_map = {0: "Unknown", 1: "Ore"}
+        import os as _os
+        import uuid as _uuid
+        from .common import HERE as _HERE
+        fdir = _os.path.join(_HERE, ".work", f"c09_{_os.getpid()}_{_uuid.uuid4().hex[:8]}")
+        _os.makedirs(fdir, exist_ok=True)
+        cx.on_exit(lambda: __import__("shutil").rmtree(fdir, ignore_errors=True))
+        with open(_os.path.join(fdir, "attached.txt"), "w") as fh:
+            fh.write("attached file")
+        f1 = p.add_file(_os.path.join(fdir, "attached.txt"))
+        f1.public = True
         import warnings
         with warnings.catch_warnings():
             warnings.simplefilter("ignore")
             q = Points.create(ws, vertices=real_np.arange(3.0).reshape(1, 3), name="Q", parent=p)
-        uid = {"g": g.uid, "h": h.uid, "o": o.uid, "d1": d1.uid, "d2": d2.uid, "k": k.uid, "p": p.uid, "s1": s1.uid, "t1": t1.uid, "i1": i1.uid, "s2": s2.uid, "b1": b1.uid, "q": q.uid}
+        uid = {"g": g.uid, "h": h.uid, "o": o.uid, "d1": d1.uid, "d2": d2.uid, "k": k.uid, "p": p.uid, "s1": s1.uid, "t1": t1.uid, "i1": i1.uid, "s2": s2.uid, "b1": b1.uid, "q": q.uid, "f1": f1.uid}
         fmt = lambda u: "{" + str(u) + "}"        # noqa: E731
         unrelated = [f"/GEOSCIENCE/Groups/{fmt(k.uid)}", f"/GEOSCIENCE/Objects/{fmt(p.uid)}"] + \
                     [f"/GEOSCIENCE/Objects/{fmt(q.uid)}"] + \
-                    [f"/GEOSCIENCE/Data/{fmt(x.uid)}" for x in (s1, t1, i1, s2, b1)] + \
+                    [f"/GEOSCIENCE/Data/{fmt(x.uid)}" for x in (s1, t1, i1, s2, b1, f1)] + \
                     [f"/GEOSCIENCE/Types/Data types/{fmt(x.entity_type.uid)}" for x in (s1, t1, i1, s2, b1)] + \
                     [f"/GEOSCIENCE/Types/Group types/{fmt(k.entity_type.uid)}"]
         header_attrs = ["Contributors", "Distance unit", "GA Version", "Version"]
         ws.close()
-        del g, h, o, d1, d2, k, p, s1, t1, i1, s2, b1, q
-        genesis = set(digest(ws.h5file, {}, unrelated))     # what the creating session left in the file
+        del g, h, o, d1, d2, k, p, s1, t1, i1, s2, b1, q, f1
+        genesis_vals = digest(ws.h5file, {}, unrelated)     # what the creating session left in the file
+        genesis = set(genesis_vals)
         with self.engine(cx) as X:
             ws = Workspace(ws.h5file)
 
@@ -201,6 +212,10 @@ class FrameStep(Scenario):
                     nv = [cx.real(f"b{i}" + sfx) for i in range(nvx)]
                     assume_not_ndv(cx, nv)
                     o.add_data({"D4" + sfx: {"values": mk_array(X, nv, (nvx,), "float64"), "entity_type": get("s1").entity_type}})
+                elif step == "copy_data_renamed":         # D1's type is shared with the unrelated S2: a renamed copy must not rename it
+                    get("d1").copy(parent=o, name="D1 under another name")
+                elif step == "copy_object_renamed":
+                    o.copy(parent=get("h"), name="O under another name")
                 elif step == "modify_values":
                     arr = get("d1").values
                     y = cx.real("y" + sfx)
@@ -219,6 +234,13 @@ class FrameStep(Scenario):
             cx.prove(genesis <= set(before) and genesis <= set(after),
                      f"[{step}] every node and attribute the creating session wrote for the unrelated entities is still there after the "
                      f"later sessions ({len(genesis - set(after))} missing)", "unrelated nodes")
+            # ... with the values the creating session wrote, except the two payloads the set-up session assigned (P's vertices,
+            # S1's values)
+            for key, val in genesis_vals.items():
+                if key in after and not (key.endswith("/Vertices") or key.endswith("/Data") and "{" + str(uid["s1"]) + "}" in key):
+                    short = "/".join(part if not part.startswith("{") else "{..}" for part in key.split("/GEOSCIENCE/")[-1].split("/"))
+                    cx.prove(_same(after[key], val), f"[{step}] unrelated node {short} still holds what the creating session wrote",
+                             "unrelated nodes")
             cx.prove(set(after) == set(before), f"[{step}] the unrelated entities keep exactly their nodes and attributes "
                                                 f"({len(set(after) ^ set(before))} differ)", "unrelated nodes")
             for key, val in before.items():
